@@ -206,6 +206,14 @@ func checkC12(c *Check) {
 				if r, ok := in.(*ssa.Return); ok && len(r.Results) == 1 {
 					cl := asCall(r.Results[0])
 					if cl == nil || callName(&cl.Call) != "(*strings.Replacer).Replace" {
+						// a defensive `if l.route == nil { return "" }`: constant empty result on the edge where a
+						// field of the receiver is nil
+						if vConstStr("")(r.Results[0]) {
+							nilField := edgesWhere(up, cCmp(token.EQL, vField(vParam(up, 0), "route"), vNil), true)
+							if g, _ := guardedBy(up, nilField, isInstr(in)); g && len(nilField) > 0 {
+								return
+							}
+						}
 						okEvery = false
 					}
 				}
